@@ -830,6 +830,16 @@ func (e *specEnv) call(x *ast.CallExpr, sg *SGo) Val {
 		a := arg(0)
 		return Val{T: tr.equal(a, Val{T: tr.C.zero(a.Ty), Ty: a.Ty}), Ty: tBool}
 	}
+	// ghost maps
+	if gm := tr.G.contracts.Ghosts[name]; gm != nil && len(x.Args) == 1 {
+		key, vt := e.ghostKey(gm)
+		v := arg(0)
+		ref := v.T
+		if _, ok := v.Ty.Underlying().(*types.Slice); ok {
+			ref = app("s.arr", v.T)
+		}
+		return Val{T: sel(tr.C.hget(e.heap, key), ref), Ty: vt}
+	}
 	// predicates
 	if p := tr.G.lookupPred(e.pkg, name); p != nil {
 		if len(p.Params) != len(x.Args) {
@@ -886,6 +896,18 @@ func (e *specEnv) call(x *ast.CallExpr, sg *SGo) Val {
 	}
 	sfail("unknown function %s in spec", exprString(x.Fun))
 	return Val{}
+}
+
+// ghostKey: heap key and value type of a declared ghost map.
+func (e *specEnv) ghostKey(gm *GhostMap) (string, types.Type) {
+	ge := &specEnv{tr: e.tr, pkg: e.tr.G.typesPkg[gm.PkgPath], names: map[string]Val{}}
+	if ge.pkg == nil {
+		ge.pkg = e.pkg
+	}
+	vt := ge.resolveType(gm.Type)
+	key := "G_" + gm.Name
+	e.tr.C.regHeap(key, "(Array Int "+e.tr.C.sortOf(vt)+")")
+	return key, vt
 }
 
 func exprString(x ast.Expr) string {
